@@ -48,34 +48,39 @@ Definition bip39_indices (ent : list byte) : list N :=
 
 Definition word_at (tbl : list (list byte)) (i : N) : list byte := nth (N.to_nat i) tbl [].
 
+Definition encode_with (sep : list byte) (tbl : list (list byte)) (ent : list byte) : list byte :=
+  join sep (map (word_at tbl) (bip39_indices ent)).
 Definition bip39_encode (name : string) (ent : list byte) : list byte :=
-  join (separator name) (map (word_at (canon name)) (bip39_indices ent)).
+  encode_with (separator name) (canon name) ent.
 
 (* ---------- decoding ---------- *)
-(* Unicode White_Space *)
-Definition is_space_cp (c : N) : bool :=
-  ((9 <=? c) && (c <=? 13)) || (c =? 0x20) || (c =? 0x85) || (c =? 0xA0) || (c =? 0x1680) ||
-  ((0x2000 <=? c) && (c <=? 0x200A)) || (c =? 0x2028) || (c =? 0x2029) || (c =? 0x202F) ||
-  (c =? 0x205F) || (c =? 0x3000).
-
 (* whitespace-separated tokens (maximal runs of non-whitespace), as byte strings *)
 Definition ws_tokens (s : list byte) : list (list byte) :=
   map utf8_encode (filter (fun t => match t with [] => false | _ => true end)
                           (split_at is_space_cp (utf8_decode s))).
 
-Fixpoint lookup_all (tbl : list (list byte)) (toks : list (list byte)) : option (list N) :=
+(* a table as a partial map word -> index (first occurrence; tables have no duplicates) *)
+Definition tbl_get (tbl : list (list byte)) (w : list byte) : option N :=
+  match index_of w tbl with Some i => Some (N.of_nat i) | None => None end.
+
+Fixpoint lookup_all (get : list byte -> option N) (toks : list (list byte)) : option (list N) :=
   match toks with
   | [] => Some []
   | t :: r =>
-    match index_of t tbl, lookup_all tbl r with
-    | Some i, Some is => Some (N.of_nat i :: is)
+    match get t, lookup_all get r with
+    | Some i, Some is => Some (i :: is)
     | _, _ => None
     end
   end.
 
+(* the first token that is not a word, with its position *)
+Fixpoint first_unknown (get : list byte -> option N) (toks : list (list byte)) (i : nat) : option (list byte * nat) :=
+  match toks with
+  | [] => None
+  | t :: r => match get t with None => Some (t, i) | Some _ => first_unknown get r (S i) end
+  end.
+
 Definition bits_of_indices (idx : list N) : list bool := flat_map (bits_of_N 11) idx.
-Definition bytes_of_bits (bs : list bool) : list byte :=
-  map (fun c => byte_of_N (val c)) (chunks 8 (length bs / 8) bs).
 
 (* n words carry 11n bits: the first 32n/3 are entropy, the last n/3 the checksum *)
 Definition entropy_of_indices (idx : list N) : list byte :=
@@ -83,19 +88,21 @@ Definition entropy_of_indices (idx : list N) : list byte :=
 Definition checksum_of_indices (idx : list N) : list bool :=
   let n := length idx in skipn (11 * n - n / 3) (bits_of_indices idx).
 
-Definition bip39_decode (name : string) (s : list byte) : option (list byte) :=
-  match lookup_all (canon name) (ws_tokens s) with
+Definition decode_with (tbl : list (list byte)) (s : list byte) : option (list byte) :=
+  match lookup_all (tbl_get tbl) (ws_tokens s) with
   | Some idx => Some (entropy_of_indices idx)
   | None => None
   end.
+Definition bip39_decode (name : string) (s : list byte) : option (list byte) := decode_with (canon name) s.
 
 (* ---------- validity of a sentence ---------- *)
 Definition checksum_ok (idx : list N) : Prop :=
   checksum_of_indices idx = firstn (length idx / 3) (bits (hash (entropy_of_indices idx))).
 
-Definition valid_sentence (name : string) (toks : list (list byte)) : Prop :=
-  exists idx, toks = map (word_at (canon name)) idx /\ valid_wc (length idx) /\
+Definition valid_sentence_with (tbl : list (list byte)) (toks : list (list byte)) : Prop :=
+  exists idx, toks = map (word_at tbl) idx /\ valid_wc (length idx) /\
               Forall (fun i => i < 2048) idx /\ checksum_ok idx.
+Definition valid_sentence (name : string) := valid_sentence_with (canon name).
 
 (* the same, decidably, on a string: the whitespace-separated tokens of its NFKD form *)
 Definition valid_wc_b (n : nat) : bool := existsb (Nat.eqb n) [12; 15; 18; 21; 24]%nat.
@@ -105,13 +112,29 @@ Fixpoint bools_eqb (a b : list bool) : bool :=
   | x :: a', y :: b' => Bool.eqb x y && bools_eqb a' b'
   | _, _ => false
   end.
-Definition spec_accepts (name : string) (s : list byte) : bool :=
-  match lookup_all (canon name) (ws_tokens (nfkd s)) with
+Definition checksum_okb (idx : list N) : bool :=
+  bools_eqb (checksum_of_indices idx) (firstn (length idx / 3) (bits (hash (entropy_of_indices idx)))).
+
+(* what is wrong with a token list, in the order the property names the defects *)
+Inductive verdict := VOk | VWordLen | VUnknown (tok : list byte) (pos : nat) | VChecksum.
+Definition classify (get : list byte -> option N) (toks : list (list byte)) : verdict :=
+  if negb (valid_wc_b (length toks)) then VWordLen else
+  match first_unknown get toks 0 with
+  | Some (t, i) => VUnknown t i
+  | None =>
+    match lookup_all get toks with
+    | Some idx => if checksum_okb idx then VOk else VChecksum
+    | None => VWordLen (* unreachable: no unknown token *)
+    end
+  end.
+
+Definition accepts_with (tbl : list (list byte)) (s : list byte) : bool :=
+  match lookup_all (tbl_get tbl) (ws_tokens (nfkd s)) with
   | None => false
   | Some idx =>
-    valid_wc_b (length idx) &&
-    bools_eqb (checksum_of_indices idx) (firstn (length idx / 3) (bits (hash (entropy_of_indices idx))))
+    valid_wc_b (length idx) && checksum_okb idx
   end.
+Definition spec_accepts (name : string) (s : list byte) : bool := accepts_with (canon name) s.
 End WithHash.
 
 (* ---------- seed ---------- *)
